@@ -802,3 +802,314 @@ theorem creaderAllP_eq (mem : Str) : ∀ (f cursor : Nat), cursor ≤ mem.length
         simp only at h
         rw [ih cur' hb (l, ended) hr, ← Option.some.inj h]
         rfl
+
+/-! ## path_next / path_iterate -/
+
+theorem isSingleDotP_eq (m : Str) (p : Nat) (b : Bool) (h : isSingleDot (m.drop p) = some b) :
+    isSingleDotP m p = .ok b := by
+  unfold isSingleDotP
+  by_cases hp : p < m.length
+  · rw [drop_cons_of_lt m p hp] at h
+    rw [rd_lt m p hp]
+    simp only [PR.ok_bind]
+    unfold isSingleDot at h
+    simp only at h
+    by_cases hc : (m[p] != DOT) = true
+    · rw [if_pos hc] at h; rw [if_pos hc, ← Option.some.inj h]; rfl
+    · rw [if_neg hc] at h; rw [if_neg hc]
+      by_cases hp1 : p + 1 < m.length
+      · rw [drop_cons_of_lt m (p + 1) hp1] at h
+        rw [rd_lt m (p + 1) hp1]
+        simp only at h
+        rw [← Option.some.inj h]; rfl
+      · have : m.drop (p + 1) = [] := by simp; omega
+        rw [this] at h; simp at h
+  · have : m.drop p = [] := by simp; omega
+    rw [this] at h; simp [isSingleDot] at h
+
+theorem skipSlashDotsP_eq (m : Str) : ∀ (f p : Nat) (c : Cur), m.length - p < f →
+    skipSlashDots (m.drop p) = some c →
+    ∃ q, skipSlashDotsP m f p = .ok q ∧ p ≤ q ∧ q < m.length ∧ c = m.drop q := by
+  intro f
+  induction f with
+  | zero => intro p c h; omega
+  | succ f ih =>
+    intro p c hf h
+    by_cases hp : p < m.length
+    · unfold skipSlashDotsP
+      rw [rd_lt m p hp]
+      simp only [PR.ok_bind]
+      rw [drop_cons_of_lt m p hp] at h
+      unfold skipSlashDots at h
+      by_cases hs : (m[p] == SLASH) = true
+      · rw [if_pos hs] at h; rw [if_pos hs]
+        obtain ⟨q, h1, h2, h3, h4⟩ := ih (p + 1) c (by omega) h
+        exact ⟨q, h1, by omega, h3, h4⟩
+      · rw [if_neg hs] at h; rw [if_neg hs]
+        rw [← drop_cons_of_lt m p hp] at h
+        cases hd : isSingleDot (m.drop p) with
+        | none => rw [hd] at h; simp at h
+        | some b =>
+          rw [hd] at h
+          rw [isSingleDotP_eq m p b hd]
+          simp only [PR.ok_bind]
+          cases b with
+          | true =>
+            simp only at h
+            simp only [if_true]
+            obtain ⟨q, h1, h2, h3, h4⟩ := ih (p + 1) c (by omega) h
+            exact ⟨q, h1, by omega, h3, h4⟩
+          | false =>
+            simp only at h
+            simp only [Bool.false_eq_true, if_false]
+            exact ⟨p, rfl, by omega, hp, (Option.some.inj h).symm⟩
+    · have : m.drop p = [] := by simp; omega
+      rw [this] at h; simp [skipSlashDots] at h
+
+theorem scanCompP_eq (m : Str) : ∀ (f p : Nat) (c : Cur), m.length - p < f →
+    scanComp (m.drop p) = some c →
+    ∃ q, scanCompP m f p = .ok q ∧ p ≤ q ∧ q < m.length ∧ c = m.drop q := by
+  intro f
+  induction f with
+  | zero => intro p c h; omega
+  | succ f ih =>
+    intro p c hf h
+    by_cases hp : p < m.length
+    · unfold scanCompP
+      rw [rd_lt m p hp]
+      simp only [PR.ok_bind]
+      rw [drop_cons_of_lt m p hp] at h
+      unfold scanComp at h
+      by_cases hs : (m[p] != NUL && m[p] != SLASH) = true
+      · rw [if_pos hs] at h; rw [if_pos hs]
+        obtain ⟨q, h1, h2, h3, h4⟩ := ih (p + 1) c (by omega) h
+        exact ⟨q, h1, by omega, h3, h4⟩
+      · rw [if_neg hs] at h; rw [if_neg hs]
+        rw [← drop_cons_of_lt m p hp] at h
+        exact ⟨p, rfl, by omega, hp, (Option.some.inj h).symm⟩
+    · have : m.drop p = [] := by simp; omega
+      rw [this] at h; simp [scanComp] at h
+
+theorem pathNextP_eq (m : Str) (path : Nat) (hp : path ≤ m.length) (r : Option (Nat × Nat))
+    (h : pathNext (m.drop path) = some r) :
+    pathNextP m path = .ok (r.map fun x => (path + x.1, x.2)) := by
+  unfold pathNext at h
+  unfold pathNextP
+  cases h1 : skipSlashDots (m.drop path) with
+  | none => rw [h1] at h; simp at h
+  | some c =>
+    rw [h1] at h
+    obtain ⟨q, e1, hpq, hq, hc⟩ := skipSlashDotsP_eq m (m.length + 1) path c (by omega) h1
+    subst hc
+    rw [e1]
+    simp only [PR.ok_bind, Option.bind_eq_bind, Option.bind_some] at h ⊢
+    rw [rd_lt m q hq]
+    simp only [PR.ok_bind]
+    rw [drop_cons_of_lt m q hq] at h
+    simp only [List.head?_cons, Option.bind_some] at h
+    by_cases hn : (m[q] == NUL) = true
+    · rw [if_pos hn] at h; rw [if_pos hn, ← Option.some.inj h]; rfl
+    · rw [if_neg hn] at h; rw [if_neg hn]
+      rw [← drop_cons_of_lt m q hq] at h
+      cases h2 : scanComp (m.drop q) with
+      | none => rw [h2] at h; simp at h
+      | some c2 =>
+        rw [h2] at h
+        obtain ⟨q2, e2, hq12, hq2, hc2⟩ := scanCompP_eq m (m.length + 1) q c2 (by omega) h2
+        subst hc2
+        rw [e2]
+        simp only [PR.ok_bind, Option.bind_some, List.length_drop] at h ⊢
+        rw [← Option.some.inj h]
+        simp only [Option.map_some, PR.pure_eq]
+        congr 3 <;> omega
+
+theorem pathIterateP_eq (m : Str) (path : Nat) (r : Option Cur)
+    (h : pathIterate (m.drop path) = some r) :
+    ∃ r', pathIterateP m path = .ok r' ∧ r = r'.map (fun q => m.drop q) := by
+  unfold pathIterate at h
+  unfold pathIterateP
+  by_cases hp : path < m.length
+  · rw [drop_cons_of_lt m path hp] at h
+    rw [rd_lt m path hp]
+    simp only [List.head?_cons, Option.bind_eq_bind, Option.bind_some, PR.ok_bind] at h ⊢
+    by_cases hn : (m[path] == NUL) = true
+    · rw [if_pos hn] at h; rw [if_pos hn]
+      exact ⟨none, rfl, (Option.some.inj h).symm⟩
+    · rw [if_neg hn] at h; rw [if_neg hn]
+      rw [← drop_cons_of_lt m path hp] at h
+      by_cases hs : (m[path] == SLASH) = true
+      · rw [if_pos hs] at h; rw [if_pos hs]
+        cases h1 : skipSlashDots (m.drop path) with
+        | none => rw [h1] at h; simp at h
+        | some c =>
+          rw [h1] at h
+          obtain ⟨q, e1, _, _, hc⟩ := skipSlashDotsP_eq m (m.length + 1) path c (by omega) h1
+          rw [e1]
+          simp only [PR.ok_bind, Option.bind_some] at h ⊢
+          exact ⟨some q, rfl, by rw [← Option.some.inj h, hc]; rfl⟩
+      · rw [if_neg hs] at h; rw [if_neg hs]
+        cases h2 : scanComp (m.drop path) with
+        | none => rw [h2] at h; simp at h
+        | some c2 =>
+          rw [h2] at h
+          obtain ⟨q2, e2, _, hq2, hc2⟩ := scanCompP_eq m (m.length + 1) path c2 (by omega) h2
+          subst hc2
+          rw [e2]
+          simp only [PR.ok_bind, Option.bind_some] at h ⊢
+          cases h1 : skipSlashDots (m.drop q2) with
+          | none => rw [h1] at h; simp at h
+          | some c =>
+            rw [h1] at h
+            obtain ⟨q, e1, _, _, hc⟩ := skipSlashDotsP_eq m (m.length + 1) q2 c (by omega) h1
+            rw [e1]
+            simp only [PR.ok_bind, Option.bind_some] at h ⊢
+            exact ⟨some q, rfl, by rw [← Option.some.inj h, hc]; rfl⟩
+  · have : m.drop path = [] := by simp; omega
+    rw [this] at h; simp at h
+
+
+
+/-! ## argvc_internal_split -/
+
+theorem skipWsZP_eq (m : Str) : ∀ (f p : Nat) (c : Cur), m.length - p < f →
+    skipWsZ (m.drop p) = some c →
+    ∃ q, skipWsZP m f p = .ok q ∧ p ≤ q ∧ q < m.length ∧ c = m.drop q := by
+  intro f
+  induction f with
+  | zero => intro p c h; omega
+  | succ f ih =>
+    intro p c hf h
+    by_cases hp : p < m.length
+    · unfold skipWsZP
+      rw [rd_lt m p hp]
+      simp only [PR.ok_bind]
+      rw [drop_cons_of_lt m p hp] at h
+      unfold skipWsZ at h
+      by_cases hs : (m[p] != NUL) = true
+      · rw [if_pos hs] at h; rw [if_pos hs]
+        by_cases hw : strchrHit wsArgv m[p] = true
+        · rw [if_pos hw] at h; rw [if_pos hw]
+          obtain ⟨q, h1, h2, h3, h4⟩ := ih (p + 1) c (by omega) h
+          exact ⟨q, h1, by omega, h3, h4⟩
+        · rw [if_neg hw] at h; rw [if_neg hw]
+          rw [← drop_cons_of_lt m p hp] at h
+          exact ⟨p, rfl, by omega, hp, (Option.some.inj h).symm⟩
+      · rw [if_neg hs] at h; rw [if_neg hs]
+        rw [← drop_cons_of_lt m p hp] at h
+        exact ⟨p, rfl, by omega, hp, (Option.some.inj h).symm⟩
+    · have : m.drop p = [] := by simp; omega
+      rw [this] at h; simp [skipWsZ] at h
+
+theorem scanTokZP_eq (m : Str) : ∀ (f p : Nat) (c : Cur), m.length - p < f →
+    scanTokZ (m.drop p) = some c →
+    ∃ q, scanTokZP m f p = .ok q ∧ p ≤ q ∧ q < m.length ∧ c = m.drop q := by
+  intro f
+  induction f with
+  | zero => intro p c h; omega
+  | succ f ih =>
+    intro p c hf h
+    by_cases hp : p < m.length
+    · unfold scanTokZP
+      rw [rd_lt m p hp]
+      simp only [PR.ok_bind]
+      rw [drop_cons_of_lt m p hp] at h
+      unfold scanTokZ at h
+      by_cases hs : (!strchrHit wsArgv m[p] && m[p] != NUL) = true
+      · rw [if_pos hs] at h; rw [if_pos hs]
+        obtain ⟨q, h1, h2, h3, h4⟩ := ih (p + 1) c (by omega) h
+        exact ⟨q, h1, by omega, h3, h4⟩
+      · rw [if_neg hs] at h; rw [if_neg hs]
+        rw [← drop_cons_of_lt m p hp] at h
+        exact ⟨p, rfl, by omega, hp, (Option.some.inj h).symm⟩
+    · have : m.drop p = [] := by simp; omega
+      rw [this] at h; simp [scanTokZ] at h
+
+theorem argvSplitLoopP_eq (argcmax : Nat) : ∀ (f : Nat) (m : Str) (data argc : Nat) (argv : List Nat) (r : ArgvRes),
+    data ≤ m.length → argvSplitGo argcmax f (m.drop data) argc = some r →
+    argvSplitLoopP argcmax f m data argc argv
+      = .ok ⟨r.argc, argv ++ r.argv.map (· + data), m.take data ++ r.mem⟩ := by
+  intro f
+  induction f with
+  | zero => intro m data argc argv r _ h; simp [argvSplitGo] at h
+  | succ f ih =>
+    intro m data argc argv r hd h
+    unfold argvSplitGo at h
+    unfold argvSplitLoopP
+    cases h1 : skipWsZ (m.drop data) with
+    | none => rw [h1] at h; simp at h
+    | some d1 =>
+      rw [h1] at h
+      obtain ⟨q1, e1, hdq1, hlt, hc1⟩ := skipWsZP_eq m (m.length + 1) data d1 (by omega) h1
+      subst hc1
+      rw [e1]
+      simp only [PR.ok_bind, Option.bind_eq_bind, Option.bind_some] at h ⊢
+      rw [rd_lt m q1 hlt]
+      simp only [PR.ok_bind]
+      have hhead : (m.drop q1).head? = some m[q1] := by rw [drop_cons_of_lt m q1 hlt]; rfl
+      rw [hhead] at h
+      simp only [Option.bind_some] at h
+      by_cases hc : (m[q1] == NUL || decide (argc ≥ argcmax)) = true
+      · rw [if_pos hc] at h
+        rw [if_pos hc, ← Option.some.inj h]
+        simp
+      · rw [if_neg hc] at h
+        rw [if_neg hc]
+        have hac : ¬ argc ≥ argcmax := by
+          intro hge; apply hc; simp [hge]
+        rw [if_neg hac]
+        cases h2 : scanTokZ (m.drop q1) with
+        | none => rw [h2] at h; simp at h
+        | some d2 =>
+          rw [h2] at h
+          obtain ⟨q2, e2, hq12, hlt2, hc2⟩ := scanTokZP_eq m (m.length + 1) q1 d2 (by omega) h2
+          subst hc2
+          rw [e2]
+          simp only [PR.ok_bind, Option.bind_some] at h ⊢
+          rw [rd_lt m q2 hlt2]
+          simp only [PR.ok_bind]
+          have hhead2 : (m.drop q2).head? = some m[q2] := by rw [drop_cons_of_lt m q2 hlt2]; rfl
+          rw [hhead2] at h
+          simp only [Option.bind_some, List.length_drop] at h
+          have ho1 : m.length - data - (m.length - q1) = q1 - data := by omega
+          rw [ho1] at h
+          by_cases hn2 : (m[q2] == NUL) = true
+          · rw [if_pos hn2] at h
+            rw [if_pos hn2, ← Option.some.inj h]
+            simp; omega
+          · rw [if_neg hn2] at h
+            rw [if_neg hn2]
+            by_cases hw : strchrHit wsArgv m[q2] = true
+            · rw [if_pos hw] at h
+              rw [if_pos hw]
+              have hk : m.length - data - (m.length - q2) = q2 - data := by omega
+              rw [hk] at h
+              have htail : (m.drop q2).tail = m.drop (q2 + 1) := by simp
+              rw [htail] at h
+              cases hr : argvSplitGo argcmax f (m.drop (q2 + 1)) (argc + 1) with
+              | none => rw [hr] at h; simp at h
+              | some r' =>
+                rw [hr] at h
+                simp only [Option.bind_some] at h
+                have hwr : wr m q2 NUL = .ok (m.set q2 NUL) := by unfold wr; rw [if_pos hlt2]
+                have hlen : (m.set q2 NUL).length = m.length := List.length_set
+                have hdrop : (m.set q2 NUL).drop (q2 + 1) = m.drop (q2 + 1) := List.drop_set_of_lt (by omega)
+                have hi := ih (m.set q2 NUL) (q2 + 1) (argc + 1) (argv ++ [q1]) r' (by rw [hlen]; omega)
+                  (by rw [hdrop]; exact hr)
+                rw [hwr]
+                simp only [PR.ok_bind]
+                rw [hi, ← Option.some.inj h, set_take_succ m q2 NUL hlt2]
+                simp only [List.map_cons, List.map_map, List.append_assoc, List.singleton_append,
+                  Nat.add_sub_cancel]
+                rw [← List.append_assoc (m.take data), take_drop_take m data q2 (by omega)]
+                have e1' : q1 - data + data = q1 := by omega
+                rw [e1']
+                congr 5
+                funext x
+                simp only [Function.comp]
+                omega
+            · rw [if_neg hw] at h
+              rw [if_neg hw, ← Option.some.inj h]
+              simp; omega
+
+
+end Igris.C19
